@@ -328,6 +328,12 @@ pub fn a_stmt(s: &ast::Stmt) -> String {
             i.false_body_block_or_stmt().map(a_body).unwrap_or("_".into())
         ),
         Include(i) => format!("(include {})", opt(i.file().and_then(|f| f.to_string()), |s| s)),
+        IODeclarationStatement(d) if d.array_type().is_some() => format!(
+            "(io-array-decl {} {} {})",
+            if d.input_token().is_some() { "input" } else { "output" },
+            opt(d.array_type().and_then(|at| at.scalar_type()), |t| a_ty(&t)),
+            name_of(d)
+        ),
         IODeclarationStatement(d) => format!(
             "(io-decl {} {} {})",
             if d.input_token().is_some() { "input" } else { "output" },
